@@ -48,6 +48,7 @@ ASSUMPTIONS = ["float64 only; noise >= 0.05, cases with cond(A) > 1e6 are discar
 
 LOG2PI = math.log(2 * math.pi)
 FINDING_PREFIX = "prior-batch-sum:SmoothedBoxPrior:"
+FINDING2_PREFIX = "prior-nonbatch-leading-dim:"
 
 
 # ------------------------------------------------------------------ exact helpers (Python mirror)
@@ -255,9 +256,21 @@ def dense_parts(w):
 
 
 def prior_terms(w):
+    """Elementwise log prior densities, one tensor per registered prior, in *specification shape*: the leading
+    len(batch) dimensions are the batch dimensions of the parameter — the parameter's own leading dimensions when the
+    model is batched (cfg batch == 'model'), singleton dimensions when the parameter is shared by all batch elements
+    (data batch).  These are exactly the shapes for which `MLL.priorReduce` is proved to be the per-batch sum
+    (`prior_view_sum_per_batch`, `prior_shared_all_batches`)."""
     import torch
     from props import _c02models as Mz
-    return [Mz.prior_logpdf(torch, kind, a, b, getter()) for (_site, kind, a, b, getter, _own) in w.priors]
+    out = []
+    k = len(w.batch)
+    for (_site, kind, a, b, getter, _own) in w.priors:
+        t = Mz.prior_logpdf(torch, kind, a, b, getter())
+        if k and w.cfg["batch"] != "model":
+            t = t.reshape((1,) * k + tuple(t.shape))
+        out.append(t)
+    return out
 
 
 def reduce_terms(terms, batch):
@@ -297,9 +310,19 @@ def finding_sites(w):
                    if kind == "smoothedbox" and getter().dim() == 1})
 
 
+def nb_sites(w):
+    """Sites of the second finding: a *non-batched* multi-element parameter without leading singleton dimensions
+    (MultitaskGaussianLikelihood.task_noises, shape [t]) under a data batch: `_add_other_terms` takes the leading
+    dimension of the prior term for a batch dimension."""
+    if w.cfg["batch"] != "data":
+        return []
+    return sorted({site for (site, _k, _a, _b, getter, _o) in w.priors if site == "task_noises" and getter().dim() == 1})
+
+
 def finding_shift(w, graph=False):
-    """What the implementation adds instead, if SmoothedBoxPrior's sum(-1) swallows the batch dimension:
-    (sum over all batch elements) - (own batch element), per batch element, divided by N."""
+    """What the implementation adds instead of the per-batch definition, per batch element, divided by N:
+    (A) SmoothedBoxPrior's sum(-1) swallows the batch dimension: (sum over all batch elements) - (own element);
+    (B) a prior term of shape [t] under a data batch of size b = t: (entry i) - (sum over the t entries)."""
     import torch
     from props import _c02models as Mz
     tot = torch.zeros(w.batch, dtype=torch.float64)
@@ -308,6 +331,9 @@ def finding_shift(w, graph=False):
         if kind == "smoothedbox" and w.cfg["batch"] == "model" and x.dim() == 1:
             lp = Mz.prior_logpdf(torch, kind, a, b, x)
             tot = tot + (lp.sum() - lp)
+        if site == "task_noises" and w.cfg["batch"] == "data" and x.dim() == 1 and tuple(x.shape) == tuple(w.batch):
+            lp = Mz.prior_logpdf(torch, kind, a, b, x)
+            tot = tot + (lp - lp.sum())
     return tot / w.N
 
 
@@ -392,6 +418,7 @@ def run_mll(cfg, do_grad=True):
     case.nontrivial = cfg["n"] >= 2 or bool(cfg["priors"]) or cfg["family"] == "sgpr"
     tag = f"{cfg['family']}:{cfg['lik']}:{cfg['batch']}"
     fsites = finding_sites(w)
+    bsites = nb_sites(w)
     with warnings.catch_warnings():
         warnings.simplefilter("ignore")
         mll = gpytorch.mlls.ExactMarginalLogLikelihood(w.lik, w.model)
@@ -412,14 +439,20 @@ def run_mll(cfg, do_grad=True):
                     else:
                         impl[path] = mll(w.model(*w.model.train_inputs), w.train_y)
                 except Exception as e:
-                    case.fail(f"mll-raises:{tag}:{path}", f"mll raised {type(e).__name__}: {str(e)[:200]}")
+                    if bsites and isinstance(e, RuntimeError) and cfg["b"] != cfg["t"] and "must match the size" in str(e):
+                        case.fail(FINDING2_PREFIX + "task_noises:raises",
+                                  f"data batch [{cfg['b']}], non-batched task_noises prior term of shape [{cfg['t']}]: "
+                                  f"_add_other_terms takes its leading dimension for a batch dimension and raises "
+                                  f"{type(e).__name__}: {str(e)[:120]}")
+                    else:
+                        case.fail(f"mll-raises:{tag}:{path}", f"mll raised {type(e).__name__}: {str(e)[:200]}")
         case.lines, Bx = mll_lines(w, A, m, y, pri, add)
         shift = finding_shift(w)
         tshift, tsites = twice_shift(w)
         # ---- gradients (correspondence only)
         grads = None
-        if do_grad and impl:
-            grads = gradient_check(case, w, mll, tag, fsites)
+        if do_grad and len(impl) == 2:
+            grads = gradient_check(case, w, mll, tag, fsites or bsites)
 
     def finish(replies):
         exact = exact_mll_values(replies, w.N)
@@ -443,7 +476,12 @@ def run_mll(cfg, do_grad=True):
                                   f"{'twice' } because Module.named_priors() yields it once per attribute path of its "
                                   f"module (likelihood and covar_module.likelihood): {ex + float(tshift[bi] if tshift.dim() else tshift)!r}")
                     continue
-                if fsites and _close(got, ex + float(shift[bi]), 1e-9, cond=cond):
+                if (fsites or bsites) and _close(got, ex + float(shift[bi]), 1e-9, cond=cond):
+                    for site in bsites:
+                        case.fail(FINDING2_PREFIX + site,
+                                  f"data batch {list(Bx)}, non-batched prior term on `{site}` of shape [{cfg.get('t')}]: "
+                                  f"mll{list(bi)} = {got!r}; per-batch definition (sum over all {cfg.get('t')} entries) gives "
+                                  f"{ex!r}; the implementation adds only entry {list(bi)} of the term to this batch element")
                     for site in fsites:
                         case.fail(FINDING_PREFIX + site,
                                   f"batched model (batch {list(Bx)}), SmoothedBoxPrior on `{site}` of shape {list(Bx)}: "
@@ -487,27 +525,37 @@ def gradient_check(case, w, mll, tag, fsites):
         if diff > 1e-6 * scale + 1e-9:
             if g_alt is not None and g_alt[k] is not None and \
                     float((gi - g_alt[k]).abs().max()) <= 1e-6 * float(g_alt[k].abs().max()) + 1e-9:
-                key = FINDING_PREFIX + "grad:" + name
+                key = (FINDING2_PREFIX if "task_noises" in name else FINDING_PREFIX) + "grad:" + name
             case.fail(key, f"autograd of the implementation w.r.t. {name} differs from autograd of the dense definition: "
                            f"max |diff| {diff:.3e} (|grad| {scale:.3e}); impl {gi.reshape(-1)[:4].tolist()} dense "
                            f"{gd.reshape(-1)[:4].tolist()}")
             continue
-        # central finite differences of the dense value along a random direction
+        # central finite differences of the dense value along a random direction, at two step sizes: a real
+        # gradient defect shows as two mutually consistent FD estimates that both differ from autograd; FD rounding
+        # noise (ill-conditioned K_zz of SGPR models, …) shows as two FD estimates that disagree with each other
         v = torch.randn(p.shape, generator=gen, dtype=torch.float64)
         v = v / v.norm().clamp_min(1e-30)
-        h = 1e-5 * max(1.0, float(p.detach().abs().max()))
-        with torch.no_grad():
-            p0 = p.detach().clone()
-            p.copy_(p0 + h * v)
-            fp = float(dense_value(w).sum())
-            p.copy_(p0 - h * v)
-            fm = float(dense_value(w).sum())
-            p.copy_(p0)
-        fd = (fp - fm) / (2 * h)
         dd = float((gi * v).sum())
-        if abs(fd - dd) > 1e-4 * abs(fd) + 1e-7 * (1 + scale):
-            case.fail(key, f"directional derivative of the implementation along a random direction of {name}: autograd "
-                           f"{dd!r}, central finite difference of the dense definition {fd!r} (h={h:.1e})")
+        fds = []
+        for mult in (1.0, 30.0):
+            h = mult * 1e-5 * max(1.0, float(p.detach().abs().max()))
+            with torch.no_grad():
+                p0 = p.detach().clone()
+                p.copy_(p0 + h * v)
+                fp = float(dense_value(w).sum())
+                p.copy_(p0 - h * v)
+                fm = float(dense_value(w).sum())
+                p.copy_(p0)
+            fds.append((fp - fm) / (2 * h))
+
+        def off(fd):
+            return abs(fd - dd) > 1e-4 * abs(fd) + 1e-7 * (1 + scale)
+        if off(fds[0]) and off(fds[1]):
+            if abs(fds[0] - fds[1]) <= 0.1 * min(abs(fds[0] - dd), abs(fds[1] - dd)):
+                case.fail(key, f"directional derivative of the implementation along a random direction of {name}: autograd "
+                               f"{dd!r}, central finite differences of the dense definition {fds[0]!r} (h) / {fds[1]!r} (30h)")
+            else:
+                case.notes["fd_unstable"] = case.notes.get("fd_unstable", 0) + 1
     case.notes["grad_params"] = len(ps)
     return True
 
@@ -676,7 +724,7 @@ def gen_cfgs(ctx):
     rng = ctx.rng("cases")
     quick = ctx.tier == "quick"
     cfgs = []
-    n_mll = 64 if quick else 480
+    n_mll = 64 if quick else 1400
     fams = ["single"] * 5 + ["multitask"] * 2 + ["sgpr"]
     for k in range(n_mll):
         c = Mz.random_cfg(rng, family=fams[k % len(fams)])
@@ -690,11 +738,19 @@ def gen_cfgs(ctx):
                          mean="constant", lik="gaussian",
                          priors=[[site, kind, round(rng.uniform(0.3, 1.5), 3), round(rng.uniform(0.4, 2.0), 3)]])
                 cfgs.append(("mll", c))
-    for _ in range(16 if quick else 140):
+    # multitask models under a data batch with the built-in task-noise prior (b = t and b != t)
+    for _ in range(1 if quick else 6):
+        for (b, t) in ((2, 2), (3, 2), (2, 3), (3, 3)):
+            c = Mz.random_cfg(rng, family="multitask")
+            c.update(batch="data", b=b, t=t, krank=min(c["krank"], t), lrank=0,
+                     priors=[["task_noises", rng.choice(["gamma", "lognormal", "normal"]), round(rng.uniform(0.3, 1.5), 3),
+                              round(rng.uniform(0.4, 2.0), 3)]])
+            cfgs.append(("mll", c))
+    for _ in range(16 if quick else 400):
         c = Mz.random_cfg(rng, family="single", n_max=8)
         c["n"] = max(c["n"], 2)
         cfgs.append(("loo", c))
-    for _ in range(6 if quick else 48):
+    for _ in range(6 if quick else 120):
         members = []
         for _k in range(rng.randint(2, 3)):
             c = Mz.random_cfg(rng, family="single", n_max=7)
@@ -757,6 +813,8 @@ def correspondence(ctx, use_driver=True):
             ctx.fail(key, msg, {"what": c.what, "cfg": cfg})
         if c.notes.get("grad_params"):
             ctx.count("gradient_parameter_tensors_checked", c.notes["grad_params"])
+        if c.notes.get("fd_unstable"):
+            ctx.count("finite_difference_unstable_skipped", c.notes["fd_unstable"])
     ctx.notes["cells"] = cells
     if use_driver:
         rng = ctx.rng("stochastic")
